@@ -194,10 +194,12 @@ void janet_os_rwlock_wunlock(JanetOSRWLock *rwlock) {
 #endif
 
 int32_t janet_abstract_incref(void *abst) {
+    JANET_VERIF_POINT(4, abst);
     return janet_atomic_inc(&janet_abstract_head(abst)->gc.data.refcount);
 }
 
 int32_t janet_abstract_decref(void *abst) {
+    JANET_VERIF_POINT(5, abst);
     return janet_atomic_dec(&janet_abstract_head(abst)->gc.data.refcount);
 }
 
